@@ -63,7 +63,7 @@ PROPS = {
         "lean": "Originium.Props.C02",
         "suites": ["key", "db", "closerace"],
         "skeleton_funcs": DB_SKEL,
-        "trusted_base": DB_TB + ["recovery rebuilds handles from files: C11_table_roundtrip; wal replay after a clean Close is empty (the directory listing is checked by the suite)"] + ["extract/gotrans.go (DESIGN section 14) regenerates GenLevel.maxLevelIdx (levelManager.maxLevelIdx) from /repo on every run; LevelTie.maxLevelIdx_fresh (the next table name of a level is fresh) is part of this property's module; container/list is a list"] + ["extract/gotrans.go also regenerates GenDB.close (the order of the effects of DB.Close); DBTie.close_table"],
+        "trusted_base": DB_TB + ["recovery rebuilds handles from files: C11_table_roundtrip; wal replay after a clean Close is empty (the directory listing is checked by the suite)"] + ["extract/gotrans.go (DESIGN section 14) regenerates GenLevel.maxLevelIdx (levelManager.maxLevelIdx) from /repo on every run; LevelTie.maxLevelIdx_fresh (the next table name of a level is fresh) is part of this property's module; container/list is a list"] + ["extract/gotrans.go also regenerates GenDB.close (the order of the effects of DB.Close) and GenDB.openDB (Open: both recoveries, the re-seeding of the oracle from the largest version found, the start of the flusher); DBTie.close_table / open_table"],
         "assumptions": [],
         "explanation": "Close = drain + flush as model steps (always enabled), Open recomputes nextTs from stored versions = the old counter (maxTs_present)",
     },
